@@ -66,6 +66,12 @@ class UniverseLaws(base.BaseObject):
         #: edge types allowed
         self._edge_whitelist = edge_whitelist
         try:
+            if edge_whitelist is not None:
+                # keep our own copy; the caller may go on editing theirs
+                self._edge_whitelist = {
+                    t: dict(linkset.items())
+                    for t, linkset in edge_whitelist.items()
+                }
             self.edge_whitelist
         except (ValueError, AttributeError) as exc:
             # re-raise, but with a more clear message of what's happening
